@@ -1,7 +1,7 @@
 (* C20: the n-qubit controlled rotation (controlled_rotation_gates.py).  For EVERY ring element a, the
    data-mode block blockdiag(I, I + a J) in the dual-rail mode order acts on the logical basis as
    diag(1, ..., 1, 1 + a^n): proved for n = 2, 3, 4 by symbolic expansion of the permanents (the general
-   identity perm(I + a J_n) = 1 + a^n for all n is not proved here).  With a^n = exp(i alpha) - 1 the last
+   identity perm(I + a J_n) = 1 + a^n for all n >= 2 is proved in Proofs/CatalogRotAllP.v).  With a^n = exp(i alpha) - 1 the last
    entry is exp(i alpha).  The post-selection "one photon per pair" and the heralds on 0 leave only
    logical states, so there is nothing to leak to. *)
 From PV Require Import Model.Catalog.
